@@ -90,6 +90,7 @@ what every index expression of the counting code relies on -/
 structure Func.WF (f : Func) : Prop where
   arcs : ∀ a ∈ f.arcs, a.src < f.blocks.length ∧ a.dst < f.blocks.length
   ids : ∀ b ∈ f.blocks, b.IdsLt f.arcs.length
+  nos : ∀ b ∈ f.blocks, b.no < f.blocks.length
 
 def Notes.WF (g : Notes) : Prop := ∀ f ∈ g.funcs, f.WF
 
@@ -169,6 +170,13 @@ theorem pushArc_WF {f : Func} (h : f.WF) {s d : Nat} (fl : Nat) (hs : s < f.bloc
       · exact hb.2 e he
     · intro b hb
       exact (h.ids b hb).mono (by omega)
+  · rw [pushArc_blocks_length]
+    show ∀ b ∈ modifyAt _ (modifyAt _ f.blocks s) d, b.no < f.blocks.length
+    apply all_modifyAt
+    · intro b hb; exact hb
+    apply all_modifyAt
+    · intro b hb; exact hb
+    · exact h.nos
 
 theorem addVirtualArc_WF {f : Func} (h : f.WF) (version : Nat) : (addVirtualArc version f).WF := by
   rw [addVirtualArc_eq]
@@ -200,7 +208,8 @@ theorem mem_of_getLast? {α : Type} : ∀ (l : List α) (a : α), l.getLast? = s
 
 theorem takeLines_adj (version : Nat) (f : Func) : ∀ (items : List LineItem) (mt : Bool) (b : Block),
     (takeLines version f mt items b).source = b.source ∧
-    (takeLines version f mt items b).destination = b.destination := by
+    (takeLines version f mt items b).destination = b.destination ∧
+    (takeLines version f mt items b).no = b.no := by
   intro items
   induction items with
   | nil => intro mt b; simp [takeLines]
@@ -215,7 +224,7 @@ theorem takeLines_adj (version : Nat) (f : Func) : ∀ (items : List LineItem) (
     | file nm =>
       simp only [takeLines]
       split
-      · exact ⟨rfl, rfl⟩
+      · exact ⟨rfl, rfl, rfl⟩
       · exact ih _ _
 
 theorem Notes.WF_replaceLast {g : Notes} (hg : g.WF) {f' : Func} (hf' : f'.WF) :
@@ -238,7 +247,7 @@ theorem buildStep_sat {g : Notes} (hg : g.WF) {r : NRec} (hr : r.notCrash) :
     · exact hg x h
     · simp only [List.mem_singleton] at h
       subst h
-      exact ⟨by simp, by simp⟩
+      exact ⟨by simp, by simp, by simp⟩
   | blocks n =>
     simp only [buildStep]
     cases hl : g.funcs.getLast? with
@@ -250,14 +259,21 @@ theorem buildStep_sat {g : Notes} (hg : g.WF) {r : NRec} (hr : r.notCrash) :
       constructor
       · intro a ha
         have := hf.arcs a ha
-        simp only [List.length_append, List.length_replicate]
+        simp only [List.length_append, List.length_map, List.length_range]
         omega
       · intro b hb
         rcases List.mem_append.1 hb with h | h
         · exact hf.ids b h
-        · rw [List.mem_replicate] at h
-          rw [h.2]
+        · obtain ⟨i, _, rfl⟩ := List.mem_map.1 h
           exact ⟨by simp, by simp⟩
+      · intro b hb
+        simp only [List.length_append, List.length_map, List.length_range]
+        rcases List.mem_append.1 hb with h | h
+        · have := hf.nos b h; omega
+        · obtain ⟨i, hi, rfl⟩ := List.mem_map.1 h
+          have := List.mem_range.1 hi
+          simp only
+          omega
   | arcs src as =>
     simp only [buildStep]
     cases hl : g.funcs.getLast? with
@@ -298,8 +314,14 @@ theorem buildStep_sat {g : Notes} (hg : g.WF) {r : NRec} (hr : r.notCrash) :
           apply all_modifyAt
           · intro b hb
             have := takeLines_adj g.version f items true b
-            exact ⟨by rw [this.1]; exact hb.1, by rw [this.2]; exact hb.2⟩
+            exact ⟨by rw [this.1]; exact hb.1, by rw [this.2.1]; exact hb.2⟩
           · exact hf.ids
+        · simp only [modifyAt_length]
+          show ∀ b ∈ modifyAt _ f.blocks blk, b.no < f.blocks.length
+          apply all_modifyAt
+          · intro b hb
+            rw [(takeLines_adj g.version f items true b).2.2]; exact hb
+          · exact hf.nos
       · trivial
 
 /-- **`build` never crashes** on a record stream without crash markers (and a fold cannot run out
